@@ -272,6 +272,38 @@ func TestCheck(t *testing.T) {
 				r.Violation("c03.created-primary-without-crc", fmt.Sprintf("a built bundle's primary block carries no valid CRC (type %d, %s)", typ, v.Why),
 					hex.EncodeToString(x))
 			}
+			// the serialiser always writes the CRC of what it writes: edit fields of an already serialised / parsed
+			// bundle (as the node does when it assigns the sequence number) and serialise again
+			for round := 0; round < 3; round++ {
+				switch rng.Intn(4) {
+				case 0:
+					b.PrimaryBlock.CreationTimestamp[1] = rng.Uint64() >> uint(rng.Intn(64))
+				case 1:
+					b.PrimaryBlock.Lifetime += uint64(1 + rng.Intn(100000))
+				case 2:
+					b.PrimaryBlock.ReportTo = model.GenEID(rng, false).ToBpv7()
+				case 3:
+					if p2, err := bpv7.ParseBundle(bytes.NewReader(x)); err == nil {
+						b = p2
+						b.PrimaryBlock.Lifetime += 7
+					}
+				}
+				y, err := serialise(&b)
+				if err != nil {
+					break
+				}
+				if vv := model.JudgeCRC(y); vv.MustReject {
+					r.Violation("c03.serialiser-crc-after-edit:"+vv.Why, "after editing a field of a serialised bundle the serialiser wrote a CRC that does not match the bytes it wrote ("+vv.Why+")",
+						map[string]interface{}{"first": hex.EncodeToString(x), "second": hex.EncodeToString(y)})
+					return
+				}
+				if err := parse(y); err != nil {
+					r.Violation("c03.edited-output-rejected", "parser rejects the serialiser's output for an edited bundle: "+err.Error(), hex.EncodeToString(y))
+					return
+				}
+				r.Count("created.edited_and_reserialised", 1)
+				x = y
+			}
 			pb := bpv7.NewPrimaryBlock(0, dst.ToBpv7(), src.ToBpv7(), bpv7.NewCreationTimestamp(bpv7.DtnTimeNow(), 0), 60000)
 			pb.SetCRCType(crc)
 			if !pb.HasCRC() {
